@@ -45,11 +45,11 @@ theorem dfs_nil_of_no_match (rs : TRules) (bt : Bool) (name : Pat)
   exact h _ hmem (by simpa using h1)
 
 /-- ordered mode, backtracking on: the selected final state belongs to the first matching rule, and
-    (when no field is literally `*`) carries that rule's captures -/
+    carries that rule's captures -/
 theorem ordered_pick_dfs (rs : TRules) (hs : Sorted rs) (name : Pat) (hne : name ≠ [])
     (i : Nat) (pat : Pat) (h : rs.find? (fun r => globMatches r.2 name) = some (i, pat)) :
     ∃ b, pick true (dfs rs true [] [] name) = some b ∧ b.rule = i ∧
-      (NoStarField name → b.caps = capturesOf pat name) := by
+      b.caps = capturesOf pat name := by
   rw [List.find?_eq_some_iff_append] at h
   obtain ⟨hm, as, bs, hrs, has⟩ := h
   simp only at hm
@@ -76,13 +76,12 @@ theorem ordered_pick_dfs (rs : TRules) (hs : Sorted rs) (name : Pat) (hne : name
         simp only at this; omega
   obtain ⟨b, hb, hbi, hbm⟩ := pick_ordered_of_min ⟨c, hc⟩ hmin
   refine ⟨b, hb, hbi, ?_⟩
-  intro hns
   obtain ⟨ext, _, h2, h3⟩ := dfs_sound rs true name [] [] b hbm
   have hmem := result_some_mem h2
   rw [hbi] at hmem
   have hmem' := result_some_mem hres
   have : [] ++ ext = [] ++ pat := hs.unique hmem hmem'
   simp only [List.nil_append] at this
-  rw [h3 hns, this]; simp
+  rw [h3, this]; simp
 
 end SE
